@@ -20,7 +20,38 @@ fn panic_msg(e: Box<dyn std::any::Any + Send>) -> String {
 
 /// Run `f` as thread 0 of a fresh simulation on a fresh OS thread (fresh thread-locals, so the
 /// per-thread hash seeds come from the simulator's entropy).
+/// a logger that accepts every record and formats it (the Display code of the arguments runs) into nothing
+struct SinkLogger;
+impl log::Log for SinkLogger {
+    fn enabled(&self, _m: &log::Metadata) -> bool {
+        true
+    }
+    fn log(&self, record: &log::Record) {
+        use std::fmt::Write;
+        struct Null;
+        impl std::fmt::Write for Null {
+            fn write_str(&mut self, _s: &str) -> std::fmt::Result {
+                Ok(())
+            }
+        }
+        let _ = write!(Null, "{}", record.args());
+    }
+    fn flush(&self) {}
+}
+static SINK_LOGGER: SinkLogger = SinkLogger;
+
 pub fn run_in_sim<R: Send + 'static>(cfg: SimCfg, dec: Decider, fatal_fd: i32, f: impl FnOnce() -> R + Send + 'static) -> RunOut<R> {
+    if cfg.log_level > 0 {
+        // (one run per process: the global logger can be installed once)
+        let _ = log::set_logger(&SINK_LOGGER);
+        log::set_max_level(match cfg.log_level {
+            1 => log::LevelFilter::Error,
+            2 => log::LevelFilter::Warn,
+            3 => log::LevelFilter::Info,
+            4 => log::LevelFilter::Debug,
+            _ => log::LevelFilter::Trace,
+        });
+    }
     let h = std::thread::Builder::new()
         .name("sim-root".into())
         .stack_size(64 << 20)
